@@ -137,6 +137,12 @@ func (node *Node) processUnconfirmedTx(ctx context.Context, tx handlers.TxData) 
 			return nil
 		}
 
+		if txState.State.MerkleProof != nil {
+			// The block that confirmed this tx is no longer in the chain. Its merkle proof must not
+			// be sent with the tx now that it is unconfirmed again.
+			txState.State.MerkleProof = nil
+		}
+
 		logger.Info(ctx, "Updating tx state : %s", hash)
 	}
 
